@@ -621,7 +621,10 @@ def gen_C12(seed):
         if cbs and r.random() < 0.5:
             second["callbacks"] = ["probe"]
         ops.append(second)
-    ops.append({"op": "integrate"})      # resume (no-op in the fault-free twin)
+    resume = {"op": "integrate"}          # resume (a no-op in the fault-free twin unless that stopped at a terminal event)
+    if with_events and sub(seed, "resume_events").random() < 0.5:
+        resume["events"] = first["events"]     # the resumed call watches the same event functions (it may start on a crossing already reported)
+    ops.append(resume)
     ops.append({"op": "reset"})
     last = {"op": "integrate"}
     if with_events and r.random() < 0.5:
